@@ -7,18 +7,18 @@ SUPPORT_KINDS = {"inv_init", "inv_pres", "call_requires", "count_mask_sorted"}
 PROPS = {
     "C17": dict(
         functions=["growing_degree_day", "water_stress", "temperature_stress", "cc_development", "cc_required_time",
-                   "cc_growth_inversion", "aeration_stress"],
+                   "cc_growth_inversion", "aeration_stress", "reset_initial_conditions#body"],
         level="proof",
         safety=True,
         explanation="every range / monotonicity / inversion clause of the statement is a postcondition or a two-copy (relational) obligation "
                     "on the real loop-free function; loop-free symbolic execution over fully symbolic inputs is unbounded",
         trusted_base=[],
     ),
-    "C01": dict(bounded=dict(module="water_monitors.py", args=["--property", "C01"]), functions=["pre_irrigation", "drainage", "infiltration", "capillary_rise", "groundwater_inflow", "soil_evaporation", "transpiration", "solution_single_time_step"], level="proof",
+    "C01": dict(lemmas=True, bounded=dict(module="water_monitors.py", args=["--property", "C01"]), functions=["pre_irrigation", "drainage", "infiltration", "capillary_rise", "groundwater_inflow", "soil_evaporation", "transpiration", "solution_single_time_step"], level="proof",
                 explanation="per-process mass contracts: loop invariants over the spec sum wsum (storage), closed with the lemma library", trusted_base=[]),
     "C02": dict(bounded=dict(module="water_monitors.py", args=["--property", "C02"]), functions=["rainfall_partition", "infiltration", "solution_single_time_step"], level="proof",
                 explanation="partition identities and runoff bounds as postconditions of rainfall_partition and infiltration", trusted_base=[]),
-    "C03": dict(bounded=dict(module="water_monitors.py", args=["--property", "C03"]), functions=["pre_irrigation", "drainage", "infiltration", "capillary_rise", "groundwater_inflow", "root_zone_water", "soil_evaporation", "evap_layer_water_content", "transpiration", "rainfall_partition", "solution_single_time_step"], level="proof",
+    "C03": dict(lemmas=True, bounded=[dict(module="water_monitors.py", args=["--property", "C03"]), dict(module="soil_assumptions.py")], functions=["pre_irrigation", "drainage", "infiltration", "capillary_rise", "groundwater_inflow", "root_zone_water", "soil_evaporation", "evap_layer_water_content", "transpiration", "rainfall_partition", "solution_single_time_step"], level="proof",
                 explanation="water_inv as inductive invariant of each process", trusted_base=[]),
     "C04": dict(bounded=dict(module="water_monitors.py", args=["--property", "C04"]), functions=["drainage", "irrigation", "infiltration", "capillary_rise", "groundwater_inflow", "pre_irrigation", "aeration_stress", "soil_evaporation", "transpiration", "canopy_cover", "root_zone_water", "solution_single_time_step"], level="proof",
                 explanation="sign / ordering postconditions", trusted_base=[]),
@@ -34,25 +34,45 @@ PROPS = {
                 explanation="per-step yield algebra and seasonal irrigation accumulation as postconditions of the daily step over the callee contracts; "
                             "summary rows (one per harvested season, in order) monitored by the BOUNDED stand-in only so far"),
     "C12": dict(functions=["pre_irrigation", "drainage", "infiltration", "capillary_rise", "groundwater_inflow", "root_zone_water", "soil_evaporation", "evap_layer_water_content", "rainfall_partition", "irrigation", "check_groundwater_table", "transpiration", "harvest_index", "canopy_cover", "germination", "growth_stage", "solution_single_time_step"], level="proof", frame=True,
+                store_scan=lambda area, kind: area in ("solution", "timestep"), bounded=dict(module="c12_readonly.py"),
                 explanation="assigns (frame) obligations: every store of a process function hits a fresh array or a location its contract's assigns clause names; "
-                            "parameter arrays (soil profile, weather, management) are not writable"),
-    "C09": dict(functions=["AquaCropModel.run_model", "check_model_is_finished", "update_time"], level="proof", bounded=dict(module="c09_stepwise.py"),
+                            "parameter arrays (soil profile, weather, management) are not writable; E2 store scan (with numpy view/copy tracking) over solution/ and timestep/; "
+                            "BOUNDED: content hash of every parameter component after every step of real runs (catches aliasing through views that the frame proofs do not model)"),
+    "C09": dict(functions=["AquaCropModel.run_model", "AquaCropModel._perform_timestep#body", "check_model_is_finished", "update_time"], level="proof", bounded=dict(module="c09_stepwise.py"),
                 explanation="run_model's two loops verified over an ABSTRACT step contract (ghost step counter, trajectory predicate fin): every call advances the "
                             "trajectory by min(k, steps-to-termination) and reports finished exactly at termination, so every partition of a run ends in the same "
                             "state T^N(s0); bitwise equality of tables across partitions is additionally monitored by the BOUNDED stand-in",
                 trusted_base=["AquaCropModel._perform_timestep: abstract deterministic step (assumed; frame/determinism shared with C10)"]),
-    "C07": dict(functions=["germination", "HIref_current_day", "solution_single_time_step", "check_model_is_finished", "update_time"], level="other", bounded=dict(module="c07_schedule.py"),
+    "C07": dict(functions=["germination", "HIref_current_day", "solution_single_time_step", "check_model_is_finished", "update_time", "AquaCropModel._perform_timestep#body", "AquaCropModel.run_model"], level="other", bounded=dict(module="c07_schedule.py"),
                 explanation="BOUNDED: schedule produced by the pandas initialisers and whole-run calendar facts checked on an enumerated lattice of windows / planting dates / crops"),
-    "C16": dict(functions=[], level="other", bounded=dict(module="c16_completion.py"),
-                explanation="BOUNDED: pairwise-covering enumeration of the configuration catalogue"),
-    "C18": dict(functions=[], level="other", bounded=dict(module="c18_soil.py"),
-                explanation="BOUNDED: wf_profile and initial-water-content clauses evaluated on real initialised models"),
-    "C10": dict(functions=[], level="other", bounded=dict(module="c10_determinism.py"), explanation="BOUNDED"),
-    "C11": dict(functions=[], level="other", bounded=dict(module="c11_inputs.py"), explanation="BOUNDED"),
-    "C14": dict(functions=[], level="other", bounded=dict(module="c14_lookahead.py"), explanation="BOUNDED"),
+    "C16": dict(functions=['growing_degree_day', 'water_stress', 'temperature_stress', 'aeration_stress', 'cc_development', 'cc_required_time', 'drainage', 'pre_irrigation', 'rainfall_partition', 'root_zone_water', 'irrigation', 'infiltration', 'check_groundwater_table', 'capillary_rise', 'groundwater_inflow', 'evap_layer_water_content', 'soil_evaporation', 'transpiration', 'germination', 'growth_stage', 'canopy_cover', 'HIref_current_day', 'HIadj_pre_anthesis', 'HIadj_pollination', 'HIadj_post_anthesis', 'harvest_index', 'biomass_accumulation', 'solution_single_time_step', 'check_model_is_finished', 'update_time', 'AquaCropModel._perform_timestep#body', 'AquaCropModel.run_model', 'calculate_HIGC', 'calculate_HI_linear'], level="other", safety=True, crosscheck=True, catalogue=True, bounded=[dict(module="c16_completion.py"), dict(module="soil_assumptions.py"), dict(module="deepening.py")],
+                explanation="E1: the safety obligations (definite assignment, non-zero divisors, positive log arguments, non-negative power bases, index bounds, asserts, "
+                            "unreachable raises, loop variants) of every function under contract, under the documented flag values; "
+                            "BOUNDED: pairwise-covering enumeration of the configuration catalogue for the initialisers and the combination space"),
+    "C18": dict(functions=[], level="other", bounded=[dict(module="c18_soil.py"), dict(module="deepening.py")],
+                explanation="BOUNDED: wf_profile and initial-water-content clauses evaluated on real initialised models; profile deepening terminates, ends below the "
+                            "maximum rooting depth and keeps layer properties on a lattice of compartment lists x crops"),
+    "C10": dict(functions=[], level="other", bounded=dict(module="c10_determinism.py"),
+                store_scan=lambda area, kind: kind in ("global", "default"),
+                explanation="E2 (syntactic store scan of the whole package): no function stores into a module-level object or keeps a mutable default argument by reference, "
+                            "beyond the declared frames; BOUNDED: fresh-process / hash-seed / history comparisons. Bit-identity across interpreter processes is a "
+                            "property of CPython/numpy and is not claimed by contracts."),
+    "C11": dict(functions=[], level="other", bounded=dict(module="c11_inputs.py"),
+                store_scan=lambda area, kind: kind == "param" and area in ("initialize", "entities", "utils", "core.py"),
+                explanation="E2 (syntactic store scan): the initialisers store only into the objects named in their declared frames (param_struct, clock_struct, and the "
+                            "private copies of soil/crop made by AquaCropModel._initialize); BOUNDED: re-run / new model / cross-use comparisons with attribute snapshots"),
+    "C14": dict(functions=["AquaCropModel._perform_timestep#body", "update_time", "check_model_is_finished"], level="other", bounded=dict(module="c14_lookahead.py"),
+                explanation="E1: the model's time step reads no weather record other than today's row (reads obligation on _perform_timestep) and writes only today's table rows; "
+                            "BOUNDED: cut-day perturbations, records outside the window, end-date extension compared bitwise"),
     "C15": dict(functions=[], level="other", bounded=dict(module="c15_weather_binding.py"), explanation="BOUNDED"),
-    "C08": dict(functions=[], level="other", bounded=dict(module="c08_seasons.py"), explanation="BOUNDED"),
-    "C20": dict(functions=[], level="other", bounded=dict(module="c20_inert.py"), explanation="BOUNDED"),
+    "C08": dict(functions=["reset_initial_conditions#body", "update_time", "pre_irrigation"], level="other", bounded=dict(module="c08_seasons.py"),
+                explanation="E1: the real body of reset_initial_conditions resets every season-state field to the value a fresh run starts from (counters, flags, factors, "
+                            "crop-dependent values, aeration counters, potential fluxes), restores the configured water content from a PRIVATE copy (th is not thini) and the "
+                            "initial ponding; update_time calls it exactly when a season starts; BOUNDED: season k of a multi-season run vs a fresh single-season run, bitwise"),
+    "C20": dict(functions=["rainfall_partition", "irrigation", "infiltration", "soil_evaporation"], level="other", bounded=dict(module="c20_inert.py"),
+                explanation="E1: read-guards (a parameter of a switched-off feature is never read): bund height without bunds, curve-number percentage under inhibited runoff, "
+                            "strategy parameters of other strategies, efficiency out of season, mulch parameters without mulches, wetted fraction without irrigation; "
+                            "BOUNDED: base-vs-transformed whole-run comparison incl. neutral values and the explicit default harvest date"),
 }
 
 
